@@ -97,6 +97,7 @@ struct Engine
     // the plan alone and the writes themselves probe the storage.
     template <class Img> void normalise(Model& m, Img& im, uint64_t salt)
     {
+        QuietScope quiet; // harness writes are not fault points of the operation under test
         auto v = gil::view(im);
         for (std::ptrdiff_t y = 0; y < v.height(); ++y)
             for (std::ptrdiff_t x = 0; x < v.width(); ++x)
